@@ -57,3 +57,32 @@ pub fn decompress(code: u8, data: &[u8]) -> Result<Vec<u8>, String> {
         _ => Err(format!("compression code {code}")),
     }
 }
+
+/// Lenient decode: whatever the decoder yields before it fails or the input ends (used only to
+/// measure what a possibly damaged directory declares, never as an oracle).
+pub fn decompress_lenient(code: u8, data: &[u8]) -> Vec<u8> {
+    fn drain(mut r: impl Read) -> Vec<u8> {
+        let mut out = Vec::new();
+        let mut buf = [0u8; 4096];
+        loop {
+            match r.read(&mut buf) {
+                Ok(0) | Err(_) => break,
+                Ok(n) => out.extend_from_slice(&buf[..n]),
+            }
+            if out.len() > (64 << 20) {
+                break;
+            }
+        }
+        out
+    }
+    match code {
+        1 => data.to_vec(),
+        2 => drain(flate2::read::GzDecoder::new(data)),
+        3 => drain(brotli::Decompressor::new(data, 4096)),
+        4 => match zstd::stream::read::Decoder::new(data) {
+            Ok(d) => drain(d),
+            Err(_) => Vec::new(),
+        },
+        _ => Vec::new(),
+    }
+}
